@@ -18,9 +18,9 @@ inductive ClassAtom where
   | range (iv : CPS.IvList) (negate : Bool)
 
 /-- `add_class_atom` (on `bc.cps`). -/
-def addClassAtom (cps : CPS.IvList) : ClassAtom → CPS.IvList
+def addClassAtom (icase : Bool) (cps : CPS.IvList) : ClassAtom → CPS.IvList
   | .codePoint c => CPS.addOne cps c
-  | .charClass ct positive => CPS.addSet cps (codepointsFromClass ct positive)
+  | .charClass ct positive => CPS.addSet cps (codepointsFromClass ct positive icase)
   | .range iv negate => if negate then CPS.addSet cps (CPS.inverted iv) else CPS.addSet cps iv
 
 /-- `try_consume_bracket_class_atom` on the raw input. -/
@@ -60,11 +60,13 @@ def bracketClassAtom (fl : Flags) (inp : List Nat) : Res (Option ClassAtom × Li
           | .ok (cc, rest2) => .ok (some (.codePoint cc), rest2)
     else .ok (some (.codePoint c), rest)
 
-/-- The `loop` of `consume_bracket`. -/
+/-- The `loop` of `consume_bracket`.
+(`let icase = self.flags.icase && self.flags.unicode` is what `add_class_atom` gets.) -/
 def bracketLoop (fl : Flags) (invert : Bool) :
     Nat → List Nat → CPS.IvList → Res (Node × List Nat)
   | 0, _, _ => panicAt "fuel"
   | fuel+1, inp, cps =>
+    let addClassAtom := addClassAtom (fl.icase && fl.unicode)
     match inp with
     | [] => synErr "Unbalanced bracket"
     | c :: rest =>
@@ -132,13 +134,30 @@ def sortByLenDesc (l : List (List Nat)) : List (List Nat) :=
 def altsIntoNode (alts : List (List Nat)) (icase : Bool) : Node :=
   .stringSet (sortByLenDesc alts) icase
 
-/-- `ClassSet::node`. -/
-def ClassSet.node (self : ClassSet) (icase negateSet : Bool) : Node :=
+/-- `ClassSet::nonempty_node`. -/
+def ClassSet.nonemptyNode (self : ClassSet) (icase negateSet : Bool) : Node :=
   let codepoints := if icase then Fold.addIcaseCodePoints self.cps else self.cps
   let bracket := mkBracket negateSet codepoints
   if self.alts.isEmpty then bracket
   else if codepoints.isEmpty then altsIntoNode self.alts icase
   else makeAlt [altsIntoNode self.alts icase, bracket]
+
+/-- `ClassSet::node`: the empty string alternative is split off and tried last. -/
+def ClassSet.node (self : ClassSet) (icase negateSet : Bool) : Node :=
+  let hasEmpty := self.alts.any (fun s => s.isEmpty)
+  let self' : ClassSet := { self with alts := self.alts.filter (fun s => !s.isEmpty) }
+  let node := self'.nonemptyNode icase negateSet
+  if hasEmpty then makeAlt [node, .empty] else node
+
+/-- `close_class_set_operand`. -/
+def closeClassSetOperand (icase : Bool) (operand : Operand) : Operand :=
+  if !icase then operand
+  else
+    match operand with
+    | .char c => .esc (Fold.addIcaseCodePoints (CPS.addOne [] c))
+    | .esc cps => .esc (Fold.addIcaseCodePoints cps)
+    | .cls c => .cls { c with cps := Fold.addIcaseCodePoints c.cps }
+    | .strs s => .strs s
 
 /-- `alternative.len() == 1 && pred(alternative[0])`. -/
 def single? (alt : List Nat) : Option Nat :=
@@ -242,15 +261,25 @@ def classStringLoop (unicode : Bool) :
     match inp with
     | [] => synErr "Unbalanced class set string disjunction"
     | c :: rest =>
-      if c == 0x7D then
-        .ok (if !alternative.isEmpty then alternatives ++ [alternative] else alternatives, rest)
-      else if c == 0x7C then
-        if !alternative.isEmpty then classStringLoop unicode fuel rest (alternatives ++ [alternative]) []
-        else classStringLoop unicode fuel rest alternatives alternative
+      if c == 0x7D then .ok (alternatives ++ [alternative], rest)
+      else if c == 0x7C then classStringLoop unicode fuel rest (alternatives ++ [alternative]) []
       else
         match classSetCharacter unicode inp with
         | .error e => .error e
         | .ok (ch, rest') => classStringLoop unicode fuel rest' alternatives (alternative ++ [ch])
+
+/-- The `for alternative in alternatives` loop after `\q{…}`: a string of one character is that
+character; any other string (the empty one included) is rejected in a negated class, and is
+otherwise added unless already present. -/
+def classStringSet (neg : Bool) : List (List Nat) → ClassSet → Res ClassSet
+  | [], set => .ok set
+  | a :: rest, set =>
+    match a with
+    | [c] => classStringSet neg rest { set with cps := CPS.addOne set.cps c }
+    | _ =>
+      if neg then synErr "Negated class may not contain strings"
+      else if !set.alts.contains a then classStringSet neg rest { set with alts := set.alts ++ [a] }
+      else classStringSet neg rest set
 
 /-- The state threaded through the class-set functions: remaining input and `self.depth`. -/
 structure CSt where
@@ -281,7 +310,8 @@ def classSetExpression (fl : Flags) : Nat → Bool → CSt → Res (ClassSet × 
             else if c1 == 0x26 then
               match rest1 with
               | 0x26 :: rest2 =>
-                classSetIntersection fl fuel neg { st with inp := rest2 } (result.unionOperand first)
+                classSetIntersection fl fuel neg { st with inp := rest2 }
+                  (result.unionOperand (closeClassSetOperand fl.icase first))
               | _ =>
                 let result := result.unionOperand first
                 let result := { result with cps := CPS.addOne result.cps 0x26 }
@@ -289,7 +319,8 @@ def classSetExpression (fl : Flags) : Nat → Bool → CSt → Res (ClassSet × 
             else if c1 == 0x2D then
               match rest1 with
               | 0x2D :: rest2 =>
-                classSetSubtraction fl fuel neg { st with inp := rest2 } (result.unionOperand first)
+                classSetSubtraction fl fuel neg { st with inp := rest2 }
+                  (result.unionOperand (closeClassSetOperand fl.icase first))
               | _ =>
                 match first with
                 | .char f =>
@@ -338,7 +369,7 @@ def classSetIntersection (fl : Flags) : Nat → Bool → CSt → ClassSet → Re
     match classSetOperand fl fuel neg st with
     | .error e => .error e
     | .ok (operand, st) =>
-      let result := result.intersectOperand operand
+      let result := result.intersectOperand (closeClassSetOperand fl.icase operand)
       match st.inp with
       | [] => synErr "Unbalanced class set bracket"
       | c :: rest =>
@@ -356,7 +387,7 @@ def classSetSubtraction (fl : Flags) : Nat → Bool → CSt → ClassSet → Res
     match classSetOperand fl fuel neg st with
     | .error e => .error e
     | .ok (operand, st) =>
-      let result := result.subtractOperand operand
+      let result := result.subtractOperand (closeClassSetOperand fl.icase operand)
       match st.inp with
       | [] => synErr "Unbalanced class set bracket"
       | c :: rest =>
@@ -382,10 +413,14 @@ def classSetOperand (fl : Flags) : Nat → Bool → CSt → Res (Operand × CSt)
             match rest with
             | 0x5E :: r => (true, r)
             | _ => (false, rest)
-          match classSetExpression fl fuel negateSet { st with inp := rest } with
+          match classSetExpression fl fuel (negateSet || neg) { st with inp := rest } with
           | .error e => .error e
           | .ok (result, st) =>
-            let result := if negateSet then { result with cps := CPS.inverted result.cps } else result
+            let result :=
+              if negateSet then
+                let cps := if fl.icase then Fold.addIcaseCodePoints result.cps else result.cps
+                { result with cps := CPS.inverted cps }
+              else result
             .ok (.cls result, { st with depth := st.depth - 1 })
       else if cp == 0x5C then
         match rest with
@@ -396,14 +431,17 @@ def classSetOperand (fl : Flags) : Nat → Bool → CSt → Res (Operand × CSt)
             | 0x7B :: rest2 =>
               match classStringLoop fl.unicode (rest2.length + 1) rest2 [] [] with
               | .error e => .error e
-              | .ok (alts, rest3) => .ok (.strs alts, { st with inp := rest3 })
+              | .ok (alts, rest3) =>
+                match classStringSet neg alts {} with
+                | .error e => .error e
+                | .ok set => .ok (.cls set, { st with inp := rest3 })
             | _ => synErr "Invalid class set escape: expected {"
-          else if e == 0x64 then .ok (.esc (codepointsFromClass .digits true), { st with inp := rest1 })
-          else if e == 0x44 then .ok (.esc (codepointsFromClass .digits false), { st with inp := rest1 })
-          else if e == 0x73 then .ok (.esc (codepointsFromClass .spaces true), { st with inp := rest1 })
-          else if e == 0x53 then .ok (.esc (codepointsFromClass .spaces false), { st with inp := rest1 })
-          else if e == 0x77 then .ok (.esc (codepointsFromClass .words true), { st with inp := rest1 })
-          else if e == 0x57 then .ok (.esc (codepointsFromClass .words false), { st with inp := rest1 })
+          else if e == 0x64 then .ok (.esc (codepointsFromClass .digits true fl.icase), { st with inp := rest1 })
+          else if e == 0x44 then .ok (.esc (codepointsFromClass .digits false fl.icase), { st with inp := rest1 })
+          else if e == 0x73 then .ok (.esc (codepointsFromClass .spaces true fl.icase), { st with inp := rest1 })
+          else if e == 0x53 then .ok (.esc (codepointsFromClass .spaces false fl.icase), { st with inp := rest1 })
+          else if e == 0x77 then .ok (.esc (codepointsFromClass .words true fl.icase), { st with inp := rest1 })
+          else if e == 0x57 then .ok (.esc (codepointsFromClass .words false fl.icase), { st with inp := rest1 })
           else if e == 0x70 then
             match propertyEscape fl.unicodeSets rest1 with
             | .error e => .error e
@@ -414,7 +452,9 @@ def classSetOperand (fl : Flags) : Nat → Bool → CSt → Res (Operand × CSt)
           else if e == 0x50 then
             match propertyEscape fl.unicodeSets rest1 with
             | .error e => .error e
-            | .ok (.charClass ivs, rest2) => .ok (.esc (CPS.inverted ivs), { st with inp := rest2 })
+            | .ok (.charClass ivs, rest2) =>
+              let cps := if fl.icase then Fold.addIcaseCodePoints ivs else ivs
+              .ok (.esc (CPS.inverted cps), { st with inp := rest2 })
             | .ok (.stringSet _, _) => synErr "Invalid character escape"
           else if e == 0x62 then .ok (.char e, { st with inp := rest1 })      -- `\b` is `b` (sic)
           else if isClassSetReservedPunctuator e then .ok (.char e, { st with inp := rest1 })
